@@ -12,6 +12,7 @@ import hashlib
 import json
 import os
 import re
+import shutil
 import subprocess
 
 import kanirun
@@ -79,6 +80,74 @@ def run_playback(crate, crate_dir, harness, test_src, logdir, timeout=1500):
             fh.write(orig)
 
 
+NATIVE_TOOLCHAIN = "nightly"  # the shadow crates need #![feature(prelude_import)]
+
+
+def build_native(crate, crate_dir, harness, logdir):
+    """Native build of the shadow crate (real code + models, rustc, no CBMC) with replay/kani as the
+    `kani` crate, plus a tiny binary that calls the harness' exported entry point."""
+    nd = crate_dir.rstrip("/") + "-native"
+    if os.path.exists(nd):
+        shutil.rmtree(nd)
+    shutil.copytree(crate_dir, os.path.join(nd, "lib"))
+    with open(os.path.join(nd, "lib", "Cargo.toml")) as fh:
+        toml = fh.read()
+    toml = toml.replace("[dependencies]", "[dependencies]\nkani = { package = \"replay_kani\", path = \"%s\" }" % os.path.join(ROOT, "replay", "kani"), 1)
+    toml = toml.replace("\n[workspace]\n", "\n")
+    with open(os.path.join(nd, "lib", "Cargo.toml"), "w") as fh:
+        fh.write(toml)
+    lock = os.path.join(nd, "lib", "Cargo.lock")
+    os.makedirs(os.path.join(nd, "src"))
+    with open(os.path.join(nd, "Cargo.toml"), "w") as fh:
+        fh.write("[package]\nname = \"native_replay\"\nversion = \"0.0.0\"\nedition = \"2021\"\n[dependencies]\nshadow = { package = \"shadow_%s\", path = \"lib\" }\n[workspace]\n" % crate)
+    if os.path.exists(lock):
+        shutil.move(lock, os.path.join(nd, "Cargo.lock"))
+    with open(os.path.join(nd, "src", "main.rs"), "w") as fh:
+        fh.write("extern crate shadow;\nextern \"Rust\" { fn __verif_native_%s(); }\nfn main() { unsafe { __verif_native_%s() } }\n" % (harness, harness))
+    os.makedirs(os.path.join(nd, ".cargo"))
+    with open(os.path.join(nd, ".cargo", "config.toml"), "w") as fh:
+        fh.write("[net]\noffline = true\n")
+    env = dict(os.environ, CARGO_NET_OFFLINE="true", RUSTFLAGS="--cfg kani -A warnings", RUSTUP_TOOLCHAIN=NATIVE_TOOLCHAIN,
+               CARGO_TARGET_DIR=os.path.join(ROOT, ".cache", "target-native-" + crate))
+    log = os.path.join(logdir, "%s.native-build.log" % harness)
+    with open(log, "w") as fh:
+        p = subprocess.run(["cargo", "build", "--offline"], cwd=nd, stdout=fh, stderr=subprocess.STDOUT, env=env)
+    exe = os.path.join(env["CARGO_TARGET_DIR"], "debug", "native_replay")
+    if p.returncode != 0 or not os.path.exists(exe):
+        return None, log
+    keep = os.path.join(nd, "native_replay")
+    shutil.copy2(exe, keep)
+    return keep, log
+
+
+def sampled_native(crate, crate_dir, harness, logdir, seeds=range(0, 400)):
+    """Run the harness natively with sampled concrete values for every kani::any().  Returns
+    (reproduced, detail, seed, trace)."""
+    exe, log = build_native(crate, crate_dir, harness, logdir)
+    if exe is None:
+        return False, "native build failed (see %s)" % log, None, None
+    discarded = passed = 0
+    for seed in seeds:
+        env = dict(os.environ, VERIF_REPLAY_SEED=str(seed), RUST_BACKTRACE="0")
+        try:
+            p = subprocess.run([exe], env=env, capture_output=True, text=True, timeout=60)
+        except subprocess.TimeoutExpired:
+            continue
+        if p.returncode == 77:
+            discarded += 1
+            continue
+        if p.returncode == 0:
+            passed += 1
+            continue
+        # reproduced: rerun with the value trace
+        env["VERIF_REPLAY_TRACE"] = "1"
+        q = subprocess.run([exe], env=env, capture_output=True, text=True, timeout=60)
+        msg = re.findall(r"panicked at [^\n]*\n[^\n]*", q.stderr)
+        vals = re.findall(r"any::<[^>]*>\(\) = [^\n]*", q.stderr)
+        return True, (msg[0][:400] if msg else "native run failed with exit code %d" % p.returncode), seed, vals[:64]
+    return False, "no sampled native run failed (%d passed, %d discarded by assumptions)" % (passed, discarded), None, None
+
+
 def confirm(pid, crate, crate_dir, target_dir, result, unknown_failed, logdir):
     harness = result["harness"]
     crate_name = "shadow_" + crate
@@ -88,25 +157,40 @@ def confirm(pid, crate, crate_dir, target_dir, result, unknown_failed, logdir):
     cbmc = ["--max-field-sensitivity-array-size", "2048"]
     if uws:
         cbmc += ["--unwindset", uws]
-    log = os.path.join(logdir, "%s.cex.log" % harness)
-    cmd = kanirun.BASE_ARGS + ["--harness", harness, "--target-dir", target_dir, "-Z", "concrete-playback",
-                               "--concrete-playback=print", "--cbmc-args"] + cbmc
-    rc, to, wall = kanirun._run(cmd, crate_dir, 3600, 20, log)
-    with open(log) as fh:
-        text = fh.read()
-    test_src = extract_test(text)
     desc = "; ".join(sorted(set(f["desc"] for f in unknown_failed)))
     h = hashlib.sha256((harness + desc).encode()).hexdigest()[:10]
     path = os.path.join(ROOT, "replays", "%s-%s-%s.json" % (pid, harness, h))
     rec = {
         "property": pid, "crate": crate, "harness": harness,
         "failed_checks": unknown_failed[:10],
-        "kani_concrete_playback_test": test_src,
-        "how_to_replay": "bin/replay %s   (appends the test to the shadow crate assembled from /repo and runs it natively)" % os.path.relpath(path, ROOT),
+        "how_to_replay": "bin/replay %s" % os.path.relpath(path, ROOT),
     }
-    confirmed, why = False, "no concrete playback produced"
-    if test_src:
-        confirmed, why = run_playback(crate, crate_dir, harness, test_src, logdir)
+    test_src = None
+    confirmed, why = False, ""
+    if crate == "net":
+        # small traces: Kani's own concrete playback (the solver's values), run natively
+        log = os.path.join(logdir, "%s.cex.log" % harness)
+        cmd = kanirun.BASE_ARGS + ["--harness", harness, "--target-dir", target_dir, "-Z", "concrete-playback",
+                                   "--concrete-playback=print", "--cbmc-args"] + cbmc
+        rc, to, wall = kanirun._run(cmd, crate_dir, 3600, 24, log)
+        with open(log) as fh:
+            text = fh.read()
+        test_src = extract_test(text)
+        rec["kani_concrete_playback_test"] = test_src
+        if test_src:
+            confirmed, why = run_playback(crate, crate_dir, harness, test_src, logdir)
+        else:
+            why = "no concrete playback produced"
+    if not confirmed:
+        # store / log crates (the trace of a store run is too large for kani-driver: > 20 GB while
+        # parsing it - measured) and fall-back for net: the shapes are concrete, so a native run of
+        # the same harness with sampled values for every kani::any() reproduces a genuine violation
+        ok, why2, seed, vals = sampled_native(crate, crate_dir, harness, logdir)
+        rec["sampled_native_replay"] = {"reproduced": ok, "detail": why2, "seed": seed, "values": vals}
+        if ok:
+            confirmed, why = True, why2
+        else:
+            why = (why + "; " if why else "") + why2
     rec["native_replay"] = {"reproduced": confirmed, "detail": why}
     with open(path, "w") as fh:
         json.dump(rec, fh, indent=1)
